@@ -1014,6 +1014,10 @@ func (c *Ctx) compositeCloseClosesAll(rule string) {
 				sites = append(sites, site{in, p})
 			}
 		})
+		// ... and calls of a helper method of the part that holds the source, which closes it (v_mixer_close.go)
+		for _, hs := range c.closeSitesThroughHelpers(fn, iterIface, 0) {
+			sites = append(sites, site{hs.in, hs.path})
+		}
 		paths := map[string]bool{}
 		for _, s := range sites {
 			paths[s.path] = true
